@@ -136,12 +136,18 @@ func (cache *H264Cache) getPalyloadType(payload []byte) (sps, pps, islice bool) 
 		// 循环读取被封装的NAL
 		for {
 			// nal长度
+			if off+2 > len(payload) { // truncated size field
+				return
+			}
 			nalSize := ((uint16(payload[off])) << 8) | uint16(payload[off+1])
 			if nalSize < 1 {
 				return
 			}
 
 			off += 2
+			if off >= len(payload) { // size field without a NAL unit
+				return
+			}
 			realNALU := byte(payload[off] & 0x1f)
 			cache.nalType(realNALU, &sps, &pps, &islice) // 当前NAL类型
 			off += int(nalSize)
